@@ -151,6 +151,7 @@ def drain (s : St) : St := pump (fuelFor s) s
 inductive Op
   | q (k : Nat) (m : Option Mode) (thenNow : Bool)
   | m (k : Nat)
+  | a (k : Nat)     -- another actor sends a Request to the requester: an AsyncRequest envelope carrying an ordinary message
   | r (k : Nat)
   | x (k : Nat)
   | c (k : Nat)
@@ -175,6 +176,9 @@ def step (s : St) (op : Op) : St × Res :=
   match op with
   | .q k m t => if !s.running then (s, .dead) else (enqueue s (.reqCmd k m t), .ok)
   | .m k => if !s.running then (s, .dead) else (enqueue s (.user k), .ok)
+  -- the envelope is an ordinary message for the stash gate (only AsyncResponse bypasses it); the peer's send
+  -- fails silently when the requester is gone.  Its handling is logged as user message 100 + k.
+  | .a k => if !s.running then (s, .ok) else (enqueue s (.user (100 + k)), .ok)
   | .H => if !s.running then (s, .dead) else (enqueue s .hold, .ok)
   | .L => if s.held then (drain { s with held := false }, .ok) else ({ s with permits := s.permits + 1 }, .ok)
   | .r k =>
